@@ -94,8 +94,25 @@ CLAIMS["C14"] = dict(
     technique=KANI + "; ring-level oracle validated natively against the code",
     ref="DESIGN.md §5 C14",
 )
-NA = {}
-DEFAULT_NA = "not yet implemented in this revision (work in progress)"
+CLAIMS["C19"] = dict(
+    text="Decompression side of seed-compressed GLWE: decompress_glwe is decided to copy the body unchanged, to create the mask generator exactly once from the object's stored seed, to draw exactly n*size words per mask column in column order (so the stream lines up with what compressed encryption drew) and to write digits of the object's radix, for symbolic body, seed, mask words and prior receiver contents; a receiver of a different layout is refused (panic) rather than filled from a mis-aligned stream.",
+    note="NARROW: bit-identity with standard encryption needs the compressed/standard encryption paths (DFT products) and is outside (DESIGN §2.4); GGLWE/GGSW/key decompressors delegate to decompress_glwe cell by cell but their own seed bookkeeping is not encoded. Source::new and Source::next_u64n are stubbed.",
+    technique=KANI + "; random source replaced by recording/counting stubs",
+    ref="DESIGN.md §5 C19",
+)
+CLAIMS["C07"] = dict(
+    text="Structural layer only: the generic DFT-domain functions of reference/fft64/vec_znx_dft.rs (add/sub/copy with (step, offset) selection/add_scaled/zero, forward and inverse transforms with their size rules) and reference/fft64/svp.rs (prepare, scalar-vector products in all three forms) are instantiated with exact integer kernels on the f64 bit patterns (identity FFT) and decided limb-by-limb against their specification with frame assertions: every limb/size/selection/zero-fill rule around the products is the repository's real code.",
+    note="NARROW: IEEE-754 exactness of the FFT (symbolic floating-point products), the NTT120 family, vector-matrix products and bivariate convolution (block-interleaved layouts, n>=8) are not encoded; nothing is claimed about numeric exactness or magnitude domains.",
+    technique=KANI + "; generic reference functions instantiated with substituted exact integer kernels",
+    ref="DESIGN.md §5 C07",
+)
+NA = {
+    "C04": "External products / CMux / GGSW expansion are statements about ring products computed through the DFT; no bounded integer fragment can be separated from those products, and the kernel-substitution backend that would make them integer does not finish under Kani/CBMC (5 configurations tried, DESIGN §2.4).",
+    "C05": "Tensor product, relinearisation, plaintext/constant multiplication run through the DFT convolution with two symbolic operands (symbolic x symbolic 64-bit products plus floating point); same kernel-substitution attempt does not finish (DESIGN §2.4).",
+    "C15": "End-to-end bootstrapping pipeline (key-switch, blind rotation, trace, external products at bootstrapping parameters); its plaintext-level word semantics is C13, nothing else of it is a bounded integer computation within reach of CBMC/z3.",
+    "C20": "Quantifies over thread schedules of std::thread::scope workers; Kani/CBMC has no model of Rust threads (thread::scope/spawn are unsupported constructs) and the chunk arithmetic lives inside the spawning closure. The sequential ingredients are decided under C11/C12.",
+}
+DEFAULT_NA = "not addressed"
 
 checks = []
 for p in props:
